@@ -73,7 +73,15 @@ def check_stateless(db, chk, rule: str, modnames: Iterable[str], scope: Optional
                 dn = ast.unparse(d.func if isinstance(d, ast.Call) else d)
                 if dn in _MEMO:
                     why = MEMO_FROZEN.get((mn, q))
-                    chk.ob(rule, f"{mn}:{q} memoised with @{dn}", True if why else None, mod.loc(f), found=dn, accepted=why or "not in the confirmed table", key=f"{mn}:{q}|memo")
+                    params = H.param_names(f)
+                    reads_cfg = any(isinstance(x, ast.Attribute) and isinstance(x.value, ast.Name) and x.value.id in ("hta_options", "os") for x in ast.walk(f)) or "environ" in ast.unparse(f)
+                    if not params and reads_cfg:
+                        # no argument in the cache key: evaluated once per PROCESS, although it reads a setting that can change between analyses
+                        chk.ob(rule, f"{mn}:{q} memoised with @{dn}: the cache key contains an argument (at least the object), so a changed option is seen by the next analysis", False, mod.loc(f),
+                               found={"decorators": [ast.unparse(x) for x in f.decorator_list], "parameters": params}, accepted="per-object memo (self in the key) or no memo",
+                               why="a parameterless memoised reader of an environment option latches the first value for the life of the process", key=f"{mn}:{q}|memo")
+                    else:
+                        chk.ob(rule, f"{mn}:{q} memoised with @{dn}", True if why else None, mod.loc(f), found=dn, accepted=why or "not in the confirmed table", key=f"{mn}:{q}|memo")
     chk.analysed_add("stateless_scan_functions", n)
 
 
